@@ -1359,9 +1359,14 @@ func (h *fsHandler) handleRequest(ctx *RequestCtx) {
 	if !ok {
 		filePath := h.pathToFilePath(path, hasTrailingSlash)
 
+		// The root directory itself has no compressed copy: root+suffix would
+		// name a sibling of the root (e.g. "/srv/www.fasthttp.gz"), outside it.
+		// Open it uncompressed; the directory index below still honours mustCompress.
+		mustCompressFile := mustCompress && len(bytes.Trim(path, "/")) > 0
+
 		var err error
-		ff, err = h.openFSFile(filePath, mustCompress, fileEncoding)
-		if mustCompress && err == errNoCreatePermission {
+		ff, err = h.openFSFile(filePath, mustCompressFile, fileEncoding)
+		if mustCompressFile && err == errNoCreatePermission {
 			ctx.Logger().Printf("insufficient permissions for saving compressed file for %q. Serving uncompressed file. "+
 				"Allow write access to the directory with this file in order to improve fasthttp performance", filePath)
 			mustCompress = false
